@@ -558,7 +558,7 @@ Section Walk.
       + destruct inc; now apply R_aexit_raise_ret.
     - (* CStartWait *)
       destruct inc as [e|]; [|now apply Rf_ret].
-      destruct (handle_pending s child); [|now apply Rf_ret].
+      destruct (handle_pending s child); [|destruct (f_st (futs s _)); now apply Rf_ret].
       dpair s2 c E. dpair s4 wf E4. apply Rf_blocked, Rf_set_ctl; [exact I|].
       eapply Rp_event_wait; [exact E4|]. eapply Rp_new_enter; [exact OkN|exact E|]. now apply Rf_cancel.
     - (* CStartJoin *)
